@@ -35,6 +35,7 @@ def _engine_for(pid: str):
         "C09": "check_platform",
         "C02": "check_marker", "C07": "check_marker", "C12": "check_marker", "C15": "check_marker",
         "C03": "check_markersem", "C11": "check_markersem",
+        "C10": "check_memo",
         "C04": "check_pep440", "C06": "check_pep440", "C17": "check_pep440",
         "C08": "check_wheel", "C16": "check_wheel", "C18": "check_wheel",
     }
